@@ -322,6 +322,7 @@ inductive Term
   | call (id : Str) (t : Term)
   | fresh
   | errImage (s : Stage) (e : Err)
+  | errImageX (s : Stage) (what : Str)   -- error image of an injected fault (second layer, `CacheSM`)
 deriving DecidableEq, Repr
 
 def termOps : Ops Str Term where
